@@ -90,7 +90,9 @@ func buildC14(tier string, seed int64) *Family {
 			}
 		}
 	}
-	for _, x := range []string{"//p:a", "//a", "//q:a/@p:a", "p:a/q:a", "//*[p:a]", "@p:a", "//@q:a", "p:a | q:a"} {
+	for _, x := range []string{"//p:a", "//a", "//q:a/@p:a", "p:a/q:a", "//*[p:a]", "@p:a", "//@q:a", "p:a | q:a",
+		// NCName:* — every element (attribute) of that prefix / namespace
+		"p:*", "//p:*", "@p:*", "//q:*/@p:*", "ancestor::p:*", "//*[p:*]", "p:*/q:a", "//*[self::p:*]", "following::q:*", "//*[p:* or a]", "//*[p:* and q:a]"} {
 		for _, mp := range maps {
 			for _, nv := range navs {
 				insts = append(insts, mk("H_nodeset", x, mp, nv))
@@ -137,7 +139,7 @@ func buildC14(tier string, seed int64) *Family {
 		},
 		Rule: "instance = name test (a, p:a, q:a) on one axis (and a few multi-step / predicate forms) x namespace map x navigator kind, and name-function calls; " +
 			"case = explored symbolic path; non-trivial = reference set non-empty in the path's model (or the function was evaluated)",
-		Outside: []string{"p:* tests", "name functions of reverse-axis arguments (first yielded vs first in document order)", "default-namespace semantics", "documents beyond the bounds"},
+		Outside: []string{"name functions of reverse-axis arguments (first yielded vs first in document order)", "default-namespace semantics", "documents beyond the bounds"},
 		PerInst: 5 * time.Minute,
 	}
 }
